@@ -447,3 +447,96 @@ Proof. split; [reflexivity|split; [reflexivity|]]. apply Forall_forall. intros c
 Print Assumptions C17_text_skeleton.
 Print Assumptions C17_json_wire_skeleton.
 Print Assumptions C17_every_body_interpreted.
+
+(* ================================================================================================
+   Extra wave (Proofs/C17_scan.v): TransCtrlSeq's scan over every position, what strip deletes by position and
+   at the boundaries, ClearString through with / extra, Text and Translate together
+   ================================================================================================ *)
+From GoMC Require Import Proofs.C17_scan.
+(* TransCtrlSeq, the WHOLE translated body: ReplaceAllStringFunc over the translated fmtPat (section sign + one byte
+   of the class parsed from the pattern; leftmost non-overlapping matches) with the translated callback, `change`
+   the disjunction over the callback runs - for every string and both modes it is the model's trans_ctrl *)
+Theorem C17_trans_ctrl_scan_skeleton : forall ansi s,
+  tcs_run (snd chat_TransCtrlSeq) ansi s = Some (trans_ctrl ansi s).
+Proof. exact trans_ctrl_is_scan. Qed.
+(* every position: the byte at position i is deleted iff a code of the table starts at position i-2, i-1 or i *)
+Theorem C17_strip_positions : forall s,
+  strip s = select (map (deleted s) (seq 0 (List.length s))) s.
+Proof. exact strip_positions. Qed.
+(* boundaries: a string that is just a code; a code as the last three bytes; a run of consecutive codes anywhere
+   (a = [] : at the start, b = [] : at the end); a lone or truncated section sign at the end is kept *)
+Theorem C17_strip_boundaries : forall a b c cs, code_lookup c fmt_code <> None ->
+  Forall (fun x => code_lookup x fmt_code <> None) cs ->
+  strip [sect1; sect2; c] = []
+  /\ strip (a ++ [sect1; sect2; c]) = strip a
+  /\ strip (a ++ flat_map code_bytes (c :: cs) ++ b) = strip a ++ strip b
+  /\ strip (a ++ [sect1; sect2]) = strip a ++ [sect1; sect2]
+  /\ strip (a ++ [sect1]) = strip a ++ [sect1]
+  /\ strip [sect1; sect2] = [sect1; sect2].
+Proof.
+  intros a b c cs Hc Hcs. split; [exact (strip_only_code c Hc)|]. split; [exact (strip_code_last a c Hc)|].
+  split; [exact (strip_code_run cs Hcs c a b Hc) | exact (strip_lone_sign a)].
+Qed.
+(* a suffix whose first byte can complete no code does not interact with the prefix *)
+Theorem C17_strip_app_safe : forall a b, safe_head b -> strip (a ++ b) = strip a ++ strip b.
+Proof. exact strip_app_safe. Qed.
+(* the class of fmtPat is larger than fmtCode: section sign + k, K, A-F, L-O, R is matched by the pattern, has no
+   entry in the table and is KEPT by the plain renderer (the reading fixed in DESIGN 3/C17: formatting codes are
+   those of the library's own table; recorded here so that the gap is a theorem, not a comment) *)
+Theorem C17_strip_class_larger_than_table :
+  forallb (fun e => (class_matches chat_fmtPat e
+                     && match code_lookup e fmt_code with None => true | Some _ => false end
+                     && str_eqb (strip [120; sect1; sect2; e; 121]) [120; sect1; sect2; e; 121])%bool)
+          [107; 75; 65; 66; 67; 68; 69; 70; 76; 77; 78; 79; 82] = true.
+Proof. exact strip_class_survivor. Qed.
+(* the plain rendering of ANY component is the code-free renderer applied to the component whose every rendered
+   string - Text and bare string arguments, through with and extra, at any depth - went through strip *)
+Theorem C17_clear_strips_every_string : forall tbl m, clear_string tbl m = raw_string tbl (strip_msg m).
+Proof. exact clear_is_raw_of_stripped. Qed.
+(* Message.ClearString with its recursion closed: the interpreter of the translated body, calling ITSELF for
+   v.ClearString() and m.Extra[i].ClearString(), is the model's renderer once the fuel covers the nesting depth *)
+Theorem C17_clear_string_deep_skeleton : forall tbl fuel m, (rdepth m <= fuel)%nat ->
+  clear_deep tbl fuel m = clear_string tbl m.
+Proof. exact clear_deep_is_model. Qed.
+(* a component with BOTH Text and Translate: the interpretation of the translated MarshalNBT / MarshalJSON writes
+   both keys with both values, and both survive the tree round trips and the wire *)
+Theorem C17_text_and_translate : forall m, m_text m <> [] -> m_translate m <> [] ->
+  (exists fs, mn_run (snd chat_Message_MarshalNBT) m None = Some fs
+     /\ In (k_text, TStr (m_text m)) fs /\ In (k_translate, TStr (m_translate m)) fs)
+  /\ (exists fs, mj_run (snd chat_Message_MarshalJSON) m = Some (JObj fs)
+     /\ In (k_text, JStr (m_text m)) fs /\ In (k_translate, JStr (m_translate m)) fs)
+  /\ (exists m', of_nbt (to_nbt m) = Some m' /\ m_text m' = m_text m /\ m_translate m' = m_translate m)
+  /\ (exists m', of_json (to_json m) = Some m' /\ m_text m' = m_text m /\ m_translate m' = m_translate m)
+  /\ (msg_ok m = true -> forall rest, exists m',
+        msg_read (wire m ++ rest) = Some (m', rest) /\ m_text m' = m_text m /\ m_translate m' = m_translate m).
+Proof. exact text_and_translate. Qed.
+(* the conversions rawMsgStruct(m) / translateMsg(m) / Message(JsonMessage) name, through the TRANSLATED type
+   definitions, the structs whose tag tables the marshal interpreters use *)
+Theorem C17_conversions_resolved :
+  encode_table "err = enc.Encode(rawMsgStruct(m), """")"%string = conv_table "rawMsgStruct"%string
+  /\ encode_table "err = enc.Encode(translateMsg(m), """")"%string = conv_table "translateMsg"%string
+  /\ json_table "json.Marshal(rawMsgStruct(m))"%string = conv_table "rawMsgStruct"%string
+  /\ json_table "json.Marshal(translateMsg(m))"%string = conv_table "translateMsg"%string
+  /\ conv_table "JsonMessage"%string = Some chat_Message_fields
+  /\ conv_table "rawMsgStruct"%string = Some chat_Message_fields.
+Proof. exact conversions_resolved. Qed.
+Example C17_ex_scan :
+  safe_head [sect1; sect2] /\ rdepth ex_msg = 2%nat
+  /\ m_text ex_msg <> [] /\ m_translate ex_msg <> [] /\ msg_ok ex_msg = true
+  /\ Forall (fun x => code_lookup x fmt_code <> None) [114; 108; 48]
+  /\ strip ([120] ++ flat_map code_bytes [114; 108; 48] ++ [121]) = [120; 121]
+  /\ tcs_run (snd chat_TransCtrlSeq) false [sect1; sect2; 97; sect1; sect2; 75; sect1; sect2] = Some ([sect1; sect2; 75; sect1; sect2], false).
+Proof.
+  split; [split; [discriminate | reflexivity]|]. split; [reflexivity|]. split; [discriminate|]. split; [discriminate|].
+  split; [vm_compute; reflexivity|]. split; [repeat constructor; discriminate|]. split; vm_compute; reflexivity.
+Qed.
+
+Print Assumptions C17_trans_ctrl_scan_skeleton.
+Print Assumptions C17_strip_positions.
+Print Assumptions C17_strip_boundaries.
+Print Assumptions C17_strip_app_safe.
+Print Assumptions C17_strip_class_larger_than_table.
+Print Assumptions C17_clear_strips_every_string.
+Print Assumptions C17_clear_string_deep_skeleton.
+Print Assumptions C17_text_and_translate.
+Print Assumptions C17_conversions_resolved.
